@@ -27,6 +27,9 @@ from vlib import qstr
 
 NS = 'xmlns="http://www.w3.org/2000/svg" xmlns:xlink="http://www.w3.org/1999/xlink"'
 PNG_SIG = b'\x89PNG\r\n\x1a\n'
+PNG_END = b'\x00\x00\x00\x00IEND\xaeB`\x82'
+# a pre-existing output file, longer than anything the generated cases write (corpus outputs are checked by their IEND trailer)
+JUNK = (b'stale bytes of a previous output file\n' * 20000)
 COQ_IMPORTS = ['Model.Base', 'Model.GeomPrims', 'Model.CliPrims', 'Gen.C20Cli', 'Model.Cli', 'Model.Corr']
 MAX_PIXMAP_W = 536870911
 I32_MAX = 2147483647
@@ -96,6 +99,7 @@ class Case:
         self.corpus_path = kw.get('corpus_path')
         self.stdout_full = kw.get('stdout_full', False)
         self.text = kw.get('text', False)
+        self.prefill = kw.get('prefill', False)   # the output path already holds a LONGER junk file
         self.expect = kw.get('expect')      # documented exit status (HELP text ranges), independent of the model
 
     # numeric views (None if absent / not a number the model knows)
@@ -178,6 +182,19 @@ MALFORMED = [
 ]
 
 
+def tiny_inputs():
+    """empty, 1- to 4-byte inputs incl. gzip magic prefixes, and a valid svgz truncated at every length up to 24 bytes (+ a few longer)"""
+    import gzip
+    full = gzip.compress(('<svg %s width="20" height="10"><rect width="5" height="5"/></svg>' % NS).encode(), mtime=0)
+    out = [(b'', 'empty'), (b'\x1f', '1f'), (b'\x1f\x8b', 'gzip magic only'), (b'\x1f\x8b\x08', 'magic+cm'), (b'\x1f\x8b\x08\x00', 'magic+cm+flg'),
+           (b'\x1f\x8b\x07', 'magic+bad cm'), (b'\x1f\x8b\x08\x08', 'magic+cm+fname flag'), (b'\x8b\x1f', 'swapped magic'),
+           (b'\x00', 'nul'), (b'<', '<'), (b'<s', '<s'), (b'<sv', '<sv'), (b'<svg', '<svg'), (b'\xef\xbb\xbf', 'BOM only'), (b'\xff', 'ff')]
+    for n in list(range(1, 25)) + [len(full) // 2, len(full) - 9, len(full) - 1]:
+        if 0 < n < len(full):
+            out.append((full[:n], 'svgz truncated at %d' % n))
+    return out
+
+
 def gen_cases(rng, quick):
     cases = []
     n = 150 if quick else 1200
@@ -227,6 +244,8 @@ def gen_cases(rng, quick):
             kw['stdout'] = True
         elif io == 2:
             kw['stdin'] = kw['stdout'] = True
+        if rng.below(3) == 0:
+            kw['prefill'] = True
         cases.append(Case(doc, **kw))
     # argument validation and syntax errors
     d0 = ('<svg %s width="20" height="10"><rect id="r" x="2" y="2" width="5" height="5" fill="red"/>'
@@ -247,6 +266,9 @@ def gen_cases(rng, quick):
     for data, what in MALFORMED:
         for kw in (dict(), dict(stdin=True), dict(w='10'), dict(query_all=True)):
             cases.append(Case(data, kind='malformed:' + what, **kw))
+    for data, what in tiny_inputs():
+        cases.append(Case(data, kind='malformed:tiny', expect=1, prefill=True))
+        cases.append(Case(data, kind='malformed:tiny', stdin=True, expect=1))
     # svgz
     import gzip
     cases.append(Case(gzip.compress(d0, mtime=0), kind='svgz', w='30'))
@@ -294,6 +316,8 @@ def corpus_cases(ctx, quick):
             kw['z'] = rng.choice(['2', '0.5'])
         elif r == 1:
             kw['w'] = str(rng.choice([64, 150, 333]))
+        if rng.below(3) == 0:
+            kw['prefill'] = True
         out.append(Case(None, kind='corpus', corpus_path=f, text=('/text/' in f), **kw))
     return out
 
@@ -312,6 +336,11 @@ def run_case(rb, c, idx, wd):
     elif c.doc is not None:
         with open(inp, 'wb') as f:
             f.write(c.doc)
+    junk = None
+    if c.prefill and not c.stdout and not c.bad_out_dir and not c.no_output_arg:
+        junk = JUNK
+        with open(outp, 'wb') as f:
+            f.write(junk)
     argv = [rb]
     if c.w is not None:
         argv += ['-w', c.w]
@@ -355,13 +384,20 @@ def run_case(rb, c, idx, wd):
         if fh:
             fh.close()
     file_data = None
+    untouched = None
     if os.path.exists(outp) and not c.stdout:
         with open(outp, 'rb') as f:
             file_data = f.read()
+        if junk is not None:
+            untouched = (file_data == junk)
+            if untouched:
+                file_data = None        # nothing was produced: the pre-existing file is as it was
+    elif junk is not None:
+        untouched = False               # the pre-existing file was removed
     if c.stdout and so[:8] == PNG_SIG:
         with open(outp, 'wb') as f:
             f.write(so)
-    return dict(argv=argv[1:], rc=rc, stdout=so, stderr=se, file=file_data, outp=outp, inp=inp)
+    return dict(argv=argv[1:], rc=rc, stdout=so, stderr=se, file=file_data, outp=outp, inp=inp, prefilled=junk is not None, untouched=untouched)
 
 
 def lib_payload(c, r, with_png):
@@ -468,6 +504,7 @@ def describe(c, r):
     elif c.doc is not None:
         d['input_hex' if not c.doc.isascii() else 'input'] = c.doc.hex() if not c.doc.isascii() else c.doc.decode()
     d['stdin'] = c.stdin
+    d['prefill'] = bool(c.prefill)
     return d
 
 
@@ -625,6 +662,14 @@ def _run(ctx, rng, quick, binp, rb, ub, wd, proof_ok, res, broken):
                 ctx.known_or_violation(cls, text, rep)
             else:
                 ctx.violation(text, rep)
+        if r['prefilled']:
+            rep['output_path_prefilled'] = '%d junk bytes' % len(JUNK)
+            if rc != 0 and not r['untouched']:
+                ctx.violation("resvg failed (exit status %s) but modified or removed the pre-existing output file" % rc, rep)
+            if rc == 0 and not c.query_all and r['file'] is not None and r['file'][-12:] != PNG_END:
+                ctx.violation("resvg wrote over a pre-existing longer file without truncating it: %d bytes, stale tail after the PNG" % len(r['file']), rep)
+            if rc == 0 and c.query_all and not r['untouched']:
+                ctx.violation("--query-all modified the pre-existing output file", rep)
         if rc != 0:
             if not r['stderr'].strip():
                 ctx.violation("resvg failed with exit status %s without a message on stderr" % rc, rep)
@@ -766,19 +811,30 @@ def usvg_oracle(ctx, rng, quick, binp, ub, wd):
             argv += ['--preserve-text']; wopts.append('preserve_text')
         if r == 6:
             argv += ['--indent', 'tabs', '--shape-rendering', 'crispEdges']; wopts.append('indent=tabs'); lopts.append('sr=crispEdges')
-        jobs.append(dict(path=f, argv=argv, lopts=';'.join(lopts) or '-', wopts=';'.join(wopts) or '-', mode=rng.below(6), idx=i))
+        jobs.append(dict(path=f, argv=argv, lopts=';'.join(lopts) or '-', wopts=';'.join(wopts) or '-', mode=rng.below(6), idx=i,
+                         prefill=(rng.below(2) == 0)))
     # failure behaviour
     for j, (data, what) in enumerate(MALFORMED):
         p = os.path.join(wd, 'u-bad-%d.svg' % j)
         with open(p, 'wb') as f:
             f.write(data)
-        jobs.append(dict(path=p, argv=[], lopts='-', wopts='-', mode=0, idx=1000 + j, expect_fail_ok=True))
+        jobs.append(dict(path=p, argv=[], lopts='-', wopts='-', mode=0, idx=1000 + j, expect_fail_ok=True, prefill=(j % 2 == 0)))
+    for j, (data, what) in enumerate(tiny_inputs()):
+        p = os.path.join(wd, 'u-tiny-%d.svg' % j)
+        with open(p, 'wb') as f:
+            f.write(data)
+        jobs.append(dict(path=p, argv=[], lopts='-', wopts='-', mode=0, idx=3000 + 2 * j, must_fail=True, prefill=True))
+        jobs.append(dict(path=p, argv=[], lopts='-', wopts='-', mode=1, idx=3001 + 2 * j, must_fail=True))
     jobs.append(dict(path=os.path.join(wd, 'u-missing.svg'), argv=[], lopts='-', wopts='-', mode=0, idx=2000, missing=True))
     jobs.append(dict(path=sel[0], argv=['--dpi', '9'], lopts='-', wopts='-', mode=0, idx=2001, must_fail=True))
     jobs.append(dict(path=sel[0], argv=['--coordinates-precision', '9'], lopts='-', wopts='-', mode=0, idx=2002, must_fail=True))
 
     def runj(j):
         outp = os.path.join(wd, 'u%05d.svg' % j['idx'])
+        pre = bool(j.get('prefill')) and j['mode'] != 2
+        if pre:
+            with open(outp, 'wb') as f:
+                f.write(JUNK * 4)
         argv = [ub] + j['argv'] + fonts_args()
         stdin_data = None
         if j['mode'] == 1 and not j.get('missing'):      # stdin -> file
@@ -797,7 +853,10 @@ def usvg_oracle(ctx, rng, quick, binp, ub, wd):
         if j['mode'] == 2 and rc == 0:
             with open(outp, 'wb') as f:
                 f.write(so)
-        return dict(rc=rc, stderr=se, outp=outp, argv=argv[1:], exists=os.path.exists(outp))
+        untouched = None
+        if pre:
+            untouched = os.path.exists(outp) and os.path.getsize(outp) == 4 * len(JUNK) and open(outp, 'rb').read() == JUNK * 4
+        return dict(rc=rc, stderr=se, outp=outp, argv=argv[1:], exists=os.path.exists(outp) and not untouched, prefilled=pre, untouched=untouched)
     with cf.ThreadPoolExecutor(max_workers=12) as ex:
         rs = list(ex.map(runj, jobs))
     payloads = []
@@ -809,7 +868,12 @@ def usvg_oracle(ctx, rng, quick, binp, ub, wd):
     outs = ctx.rvh_batch(binp, 'c20-usvg', payloads, per_item_timeout=60)
     nok = 0
     for j, r, o in zip(jobs, rs, outs):
-        rep = dict(tool='usvg', argv=r['argv'], exit=r['rc'], stderr=r['stderr'][:300].decode('utf-8', 'replace'), input=j['path'])
+        rep = dict(tool='usvg', argv=r['argv'], exit=r['rc'], stderr=r['stderr'][:300].decode('utf-8', 'replace'), input=j['path'],
+                   prefill=r['prefilled'], stdin=(j['mode'] == 1))
+        if not j['path'].startswith(vlib.REPO) and os.path.exists(j['path']):
+            rep['input_hex'] = open(j['path'], 'rb').read().hex()
+        if r['prefilled'] and r['rc'] != 0 and not r['untouched']:
+            ctx.violation("usvg failed (exit status %s) but modified or removed the pre-existing output file" % r['rc'], rep)
         try:
             lib = json.loads(o)
         except (TypeError, ValueError):
@@ -834,8 +898,9 @@ def usvg_oracle(ctx, rng, quick, binp, ub, wd):
             ctx.violation("usvg succeeded on an input the library rejects (%s)" % str(lib)[:100], rep)
             continue
         if not lib.get('equal'):
-            ctx.violation("usvg output differs from Tree::to_string with the same options (first difference at byte %s, %s vs %s bytes)"
-                          % (lib.get('first_diff'), lib.get('file_len'), lib.get('lib_len')), dict(rep, lib=lib))
+            ctx.violation("usvg output differs from Tree::to_string with the same options (first difference at byte %s, %s vs %s bytes%s)"
+                          % (lib.get('first_diff'), lib.get('file_len'), lib.get('lib_len'),
+                             '; the output path held a longer file before the run' if r['prefilled'] else ''), dict(rep, lib=lib))
         else:
             nok += 1
     ctx.cov['usvg_runs'] = len(jobs)
@@ -872,7 +937,7 @@ def replay(ctx, path):
         # re-target the recorded scratch paths
         new = []
         for a in argv:
-            if re.search(r"/c\d{5}\.svg$", a):
+            if re.search(r"/c\d{5}\.svg$|/u-(tiny|bad|missing)(-\d+)?\.svg$", a):
                 new.append(inp)
             elif re.search(r"/c\d{5}\.png$|/o\.png$|/u\d{5}\.svg$", a):
                 new.append(outp)
@@ -880,13 +945,17 @@ def replay(ctx, path):
                 new.append(wd)
             else:
                 new.append(a)
+        if rp.get('prefill'):
+            with open(outp, 'wb') as f:
+                f.write(JUNK * 4)
+            print("output path pre-filled with %d junk bytes" % (4 * len(JUNK)))
         p = subprocess.run([tool] + new, input=data if rp.get('stdin') else None, stdout=subprocess.PIPE, stderr=subprocess.PIPE, timeout=300, cwd=wd)
         print("command: %s %s" % (os.path.basename(tool), " ".join(new)))
         print("exit status: %s" % p.returncode)
         print("stderr: %s" % p.stderr[:600].decode('utf-8', 'replace'))
         if os.path.exists(outp):
             d = open(outp, 'rb').read()
-            print("output file: %d bytes, PNG dims %s" % (len(d), png_dims(d)))
+            print("output file: %d bytes, PNG dims %s, ends with IEND: %s, still the junk: %s" % (len(d), png_dims(d), d[-12:] == PNG_END, d == JUNK * 4))
         else:
             print("output file: none; stdout %d bytes, PNG dims %s" % (len(p.stdout), png_dims(p.stdout)))
         if rp.get('lib_payload') and rp.get('tool') != 'usvg':
